@@ -291,7 +291,7 @@ class Trace:
                             rec["raw_head"] = [str(x) for x in np.asarray(v).reshape(-1)[:6]]
                 if (not inplace) and (out is not tn0) and not self.scaled:
                     r0 = self.observe(tn0)
-                    sr = snap_vec(r0["v"], 1e-9 * (1 + self.maxabs)) if r0["v"] is not None else None
+                    sr = snap_vec(r0["v"], self.eps * (1 + self.maxabs)) if r0["v"] is not None else None
                     rec["recv_checked"] = True
                     rec["recv"] = sr or []
             else:
@@ -307,7 +307,7 @@ class Trace:
                 if (not inplace) and (out is not tn0):
                     r0 = self.observe(tn0)
                     rec["recv_checked"] = True
-                    rec["recvqd"] = qdiff(r0["v"], self.cur, 1e-12) if r0["v"] is not None else 999990
+                    rec["recvqd"] = qdiff(r0["v"], self.cur, 1e-10) if r0["v"] is not None else 999990
             self.tn = out
             if v is not None:
                 self.cur = np.asarray(v).reshape(-1)
@@ -320,12 +320,12 @@ class Trace:
             o = self.observe(tn0)
             rec.update(outer=o["outer"], sitetags=o["sitetags"], struct=o["struct"])
             if self.exact and not self.scaled:
-                sr = snap_vec(o["v"], 1e-9 * (1 + self.maxabs)) if o["v"] is not None else None
+                sr = snap_vec(o["v"], self.eps * (1 + self.maxabs)) if o["v"] is not None else None
                 rec["recv_checked"] = True
                 rec["recv"] = sr or []
             elif not self.exact:
                 rec["recv_checked"] = True
-                rec["recvqd"] = qdiff(o["v"], self.cur, 1e-12) if o["v"] is not None else 999990
+                rec["recvqd"] = qdiff(o["v"], self.cur, 1e-10) if o["v"] is not None else 999990
         self.log(rec)
         return True
 
